@@ -684,12 +684,13 @@ static std::vector<char> assemble_eb(const vrt::J &row, int natt) {
     b.Encode((int32_t)-50); b.Encode((int32_t)50);
     return std::vector<char>(b.data(), b.data() + b.size());
   }
-  if (natt == 2) {
+  if (natt == 2 || natt == -1) {
+    // (natt = -1: the deprecated multi-parallelogram scheme, method 2)
     // the same values as corrections of the parallelogram scheme under the wrap transform: exactly one value per vertex the traversal reports (the
     // model's count), then the bounds
     long entries = 0;
     for (int x : row["vidx"].ints()) if (x >= 0) ++entries;
-    b.Encode((int8_t)1); b.Encode((int8_t)1); b.Encode((uint8_t)0); b.Encode((uint8_t)4);
+    b.Encode((int8_t)(natt == 2 ? 1 : 2)); b.Encode((int8_t)1); b.Encode((uint8_t)0); b.Encode((uint8_t)4);
     for (long i = 0; i < 3 * entries; ++i) b.Encode((int32_t)(2 * (i + 1)));
     b.Encode((int32_t)-50); b.Encode((int32_t)50);
     return std::vector<char>(b.data(), b.data() + b.size());
@@ -764,7 +765,8 @@ static void probe_eb(const vrt::J &row, long index, EbStats *st) {
   const int nsm1 = row["mode"].s.empty() ? (int)row["sm"].a.size() : 0;
   const int nsm = nsm1 + (row["mode"].s.empty() ? (int)row["sm2"].a.size() : 0);
   const bool hdrow = row["mode"].s == "hd";
-  for (int natt = hdrow ? 1 : 6 + nsm; natt >= (hdrow ? 1 : 0); --natt) {
+  for (int natt = hdrow ? 1 : 6 + nsm; natt >= (hdrow ? 1 : -1); --natt) {
+    if (natt == -1 && row["mpos"].a.empty()) continue;   // the deprecated multi-parallelogram form
     const bool sm = natt >= 7;
     const vrt::J &smr = !sm ? row : (natt - 7 < nsm1 ? row["sm"][natt - 7] : row["sm2"][natt - 7 - nsm1]);
     const std::string &pred = sm ? smr["out"].s : pred0;
@@ -798,7 +800,7 @@ static void probe_eb(const vrt::J &row, long index, EbStats *st) {
         .arr("avidx", sm ? att_vidx(d, 1) : std::vector<int>{}).arr("pred_avidx", sm ? smr["avidx"].ints() : std::vector<int>{})
         .arr("avidx2", sm && natt - 7 >= nsm1 ? att_vidx(d, 2) : std::vector<int>{}).arr("pred_avidx2", sm && natt - 7 >= nsm1 ? smr["avidx2"].ints() : std::vector<int>{}).b("ok", d.ok).b("modified", modified).b("bad_alloc", tolerated_bad_alloc)
         .arr("vidx", eb_vidx(d, (natt == 6 || sm) ? 1 : natt, kd || ia)).arr("pred_vidx", sm ? smr["pvidx"].ints() : natt == 6 ? row["vidx2"].ints() : row["vidx"].ints()).s("trav", natt == 6 ? row["trav2"].s : row["trav"].s)
-        .b("enc_same", enc_same).raw("pts", (kd || ia || (natt >= 2 && natt <= 5)) && d.ok ? kd_points(*d.pc) : "[]").raw("pred_pts", kd || ia ? kd_pred(row) : natt == 2 ? kd_pred(row, "ppos") : (natt >= 3 && natt <= 5) ? kd_pred(row["cm"][natt - 3], "pos") : "[]")
+        .b("enc_same", enc_same).raw("pts", (kd || ia || (natt >= 2 && natt <= 5) || natt == -1) && d.ok ? kd_points(*d.pc) : "[]").raw("pred_pts", kd || ia ? kd_pred(row) : natt == 2 ? kd_pred(row, "ppos") : natt == -1 ? kd_pred(row, "mpos") : (natt >= 3 && natt <= 5) ? kd_pred(row["cm"][natt - 3], "pos") : "[]")
         .i("np", d.ok ? (long long)d.pc->num_points() : 0).arr("faces", faces).raw("sv", d.ok ? struct_json(*d.pc, d.is_mesh) : "{\"np\":0,\"nf\":0,\"maxface\":-1,\"atts\":[]}").end();
     fflush(out.f);
   }
